@@ -1,12 +1,32 @@
+// Model of tbb::concurrent_queue for the symbolic runs only (DESIGN 2.3): a fixed-capacity FIFO whose push / try_pop /
+// empty are single atomic steps.  Overflow is an assertion failure (never silently dropped).  TBB's own lock-free
+// internals are third-party code and not the subject of any property; the native replays use the real TBB.
 #pragma once
 #include <cstddef>
+#ifndef YK_QCAP
+#define YK_QCAP 2
+#endif
+extern "C" void yk_queue_overflow(void);
 namespace tbb {
-template<class T> class concurrent_queue {
+template<class T>
+class concurrent_queue {
 public:
-  bool empty() const { return head_ == tail_; }
-  void push(const T& e) { buf_[tail_ % 8] = e; ++tail_; }
-  bool try_pop(T& r) { if (head_ == tail_) return false; r = buf_[head_ % 8]; ++head_; return true; }
+    bool empty() const { return head_ == tail_; }
+    void push(const T& e) {
+        if (tail_ - head_ >= YK_QCAP) yk_queue_overflow();
+        buf_[tail_ % YK_QCAP] = e;
+        ++tail_;
+    }
+    bool try_pop(T& r) {
+        if (head_ == tail_) return false;
+        r = buf_[head_ % YK_QCAP];
+        ++head_;
+        return true;
+    }
+
 private:
-  T buf_[8]{}; std::size_t head_{0}; std::size_t tail_{0};
+    T buf_[YK_QCAP]{};
+    std::size_t head_{0};
+    std::size_t tail_{0};
 };
-}
+} // namespace tbb
